@@ -112,8 +112,11 @@ func cmdCheck(args []string) int {
 		}
 	}
 	for _, o := range append(gr.obls, gr.lemmas...) {
-		supporting := (o.Kind == "loop/init" || o.Kind == "loop/preserve" || o.Kind == "pre@call") && funcsOfProp[o.Func]
-		if hasProp(o.Props, prop) || supporting {
+		supporting := (o.Kind == "loop/init" || o.Kind == "loop/preserve" || o.Kind == "pre@call" || o.Kind == "assert") && funcsOfProp[o.Func]
+		// a function whose contract names the property contributes all its obligations (its memory-safety and frame
+		// obligations are part of what the property claims about it, e.g. "the scanner never panics" for C12/C15)
+		ownFunc := o.fv != nil && o.fv.c != nil && hasProp(o.fv.c.Props, prop)
+		if hasProp(o.Props, prop) || supporting || ownFunc {
 			obls = append(obls, o)
 		}
 	}
